@@ -1,12 +1,23 @@
-"""Spike runtime for the de-cythonized parsing.pyx: ctypes bridge to libdrv.so (real parsing.h)."""
-import ctypes as C, os, numpy
-_lib = C.CDLL(os.path.join(os.path.dirname(__file__), 'libdrv.so'))
+"""ctypes bridge to libdrv.so (the repository's real parsing.h compiled with harness/driver.cpp).
+
+Used two ways: (1) as the runtime of the de-cythonized depccg/parsing.pyx (classes pair, cache_type, ...,
+parse_sentence), so that depccg.parsing.run executes for real; (2) directly by the A* checks: `search()` runs
+parse_sentence with Python rule callbacks, records every pop through the DEPCCG_VERIF hook and returns the goal items
+as plain derivation structures."""
+import ctypes as C, os, subprocess, numpy
+
+_HERE = os.path.dirname(os.path.abspath(__file__))
+_SO = os.environ.get('DEPCCG_DRV_OUT', os.path.join(_HERE, 'libdrv.so'))
+subprocess.run(['bash', os.path.join(_HERE, 'build_driver.sh')], check=True)
+_lib = C.CDLL(_SO)
 UINT_MAX = 2**32 - 1
 for n, r in [('item_fin', C.c_int), ('item_cat', C.c_uint), ('item_left', C.c_void_p), ('item_right', C.c_void_p), ('item_in', C.c_float), ('item_out', C.c_float),
              ('item_score', C.c_float), ('item_start', C.c_uint), ('item_len', C.c_uint), ('item_head', C.c_uint), ('item_rule', C.c_uint)]:
     f = getattr(_lib, n); f.restype = r; f.argtypes = [C.c_void_p]
 _lib.cache_new.restype = C.c_void_p; _lib.cache_free.argtypes = [C.c_void_p]
-for n, r in [('cache_len', C.c_uint)]: getattr(_lib, n).restype = r; getattr(_lib, n).argtypes = [C.c_void_p, C.c_uint, C.c_uint]
+_lib.cache_size.restype = C.c_uint; _lib.cache_size.argtypes = [C.c_void_p]
+for n, r in [('cache_len', C.c_uint)]:
+    getattr(_lib, n).restype = r; getattr(_lib, n).argtypes = [C.c_void_p, C.c_uint, C.c_uint]
 for n, r in [('cache_op_string', C.c_char_p), ('cache_op_symbol', C.c_char_p), ('cache_head_is_left', C.c_int), ('cache_cat_id', C.c_uint)]:
     getattr(_lib, n).restype = r; getattr(_lib, n).argtypes = [C.c_void_p, C.c_uint, C.c_uint, C.c_uint]
 _lib.results_push.argtypes = [C.c_void_p, C.c_uint, C.c_uint, C.c_int, C.c_char_p, C.c_char_p]
@@ -15,57 +26,156 @@ FINAL = C.CFUNCTYPE(C.c_uint, C.c_void_p, C.POINTER(C.c_uint), C.c_void_p, C.c_v
 _lib.run_parse.restype = C.c_int
 _lib.run_parse.argtypes = [C.c_void_p, C.c_void_p, C.c_uint, C.POINTER(C.c_uint), C.c_uint, C.c_void_p, C.c_void_p, FINAL, SCAF, C.c_void_p, C.c_void_p,
                            C.c_uint, C.c_float, C.c_float, C.c_int, C.c_uint, C.c_uint, C.c_uint]
+_lib.trace_enable.argtypes = [C.c_int]
+_lib.trace_len.restype = C.c_uint
+_lib.trace_get.argtypes = [C.c_uint, C.POINTER(C.c_int), C.POINTER(C.c_uint), C.POINTER(C.c_ulonglong), C.POINTER(C.c_ulonglong), C.POINTER(C.c_float), C.POINTER(C.c_float),
+                           C.POINTER(C.c_uint), C.POINTER(C.c_uint), C.POINTER(C.c_uint), C.POINTER(C.c_uint), C.POINTER(C.c_ulonglong)]
+
+
 def _u32(v): return int(v) % (1 << 32)
+
+
 class combinator_result:
     cat_id = 0; rule_id = 0; head_is_left = False; op_string = b''; op_symbol = b''
+
+
 class pair:
     def __init__(self): object.__setattr__(self, '_d', {'first': 0, 'second': 0})
     def __setattr__(self, k, v): self._d[k] = _u32(v)
     def __getattr__(self, k): return self._d[k]
+
+
 class unordered_set(set):
     def insert(self, v): self.add(_u32(v))
-class config: pass
+
+
+class config:
+    pass
+
+
 class _Vec:            # vector[combinator_result]* handed to scaffold
     def __init__(self, p): self.p = p
     def push_back(self, c): _lib.results_push(self.p, _u32(c.cat_id), _u32(c.rule_id), int(bool(c.head_is_left)), bytes(c.op_string), bytes(c.op_symbol))
+
+
 class _CR:
-    def __init__(self, c, a, b, i): self.op_string = _lib.cache_op_string(c, a, b, i); self.op_symbol = _lib.cache_op_symbol(c, a, b, i); self.head_is_left = bool(_lib.cache_head_is_left(c, a, b, i)); self.cat_id = _lib.cache_cat_id(c, a, b, i)
+    def __init__(self, c, a, b, i):
+        self.op_string = _lib.cache_op_string(c, a, b, i); self.op_symbol = _lib.cache_op_symbol(c, a, b, i)
+        self.head_is_left = bool(_lib.cache_head_is_left(c, a, b, i)); self.cat_id = _lib.cache_cat_id(c, a, b, i)
+
+
 class _CVec:
     def __init__(self, c, key): self.c, self.key = c, key
+    def __len__(self): return _lib.cache_len(self.c, self.key.first, self.key.second)
     def __getitem__(self, i):
         n = _lib.cache_len(self.c, self.key.first, self.key.second)
-        if not 0 <= i < n: raise IndexError(f'verif-rt: vector index {i} out of range {n} (undefined behaviour in C++)')
+        if not 0 <= i < n:
+            raise IndexError(f'verif-rt: vector index {i} out of range {n} (undefined behaviour in C++)')
         return _CR(self.c, self.key.first, self.key.second, i)
+
+
 class _CMap:
     def __init__(self, c): self.c = c
     def __getitem__(self, key): return _CVec(self.c, key)
+
+
 class cache_type:
     def __init__(self, p=None): self.p = p if p is not None else _lib.cache_new(); self.own = p is None
     def __getitem__(self, i): assert i == 0; return _CMap(self.p)
+    def __len__(self): return _lib.cache_size(self.p)
     def __del__(self):
-        if self.own: _lib.cache_free(self.p)
+        if self.own:
+            _lib.cache_free(self.p)
+
+
 class _Item:
     def __init__(self, p): self.p = p
     fin = property(lambda s: bool(_lib.item_fin(s.p))); cat = property(lambda s: _lib.item_cat(s.p))
-    left = property(lambda s: (lambda q: _Item(q) if q else None)(_lib.item_left(s.p))); right = property(lambda s: (lambda q: _Item(q) if q else None)(_lib.item_right(s.p)))
+    left = property(lambda s: (lambda q: _Item(q) if q else None)(_lib.item_left(s.p)))
+    right = property(lambda s: (lambda q: _Item(q) if q else None)(_lib.item_right(s.p)))
     in_score = property(lambda s: _lib.item_in(s.p)); out_score = property(lambda s: _lib.item_out(s.p))
-    start_of_span = property(lambda s: _lib.item_start(s.p)); span_length = property(lambda s: _lib.item_len(s.p)); head_id = property(lambda s: _lib.item_head(s.p)); rule_id = property(lambda s: _lib.item_rule(s.p))
+    start_of_span = property(lambda s: _lib.item_start(s.p)); span_length = property(lambda s: _lib.item_len(s.p))
+    head_id = property(lambda s: _lib.item_head(s.p)); rule_id = property(lambda s: _lib.item_rule(s.p))
     def score(self): return _lib.item_score(self.p)
+
+
 def _buf(mv):
     mv = memoryview(mv)
-    if mv.format != 'f' or mv.ndim != 2 or not mv.c_contiguous: raise ValueError('Buffer dtype mismatch / not C-contiguous float32 2-D (Cython typed buffer check)')
+    if mv.format != 'f' or mv.ndim != 2 or not mv.c_contiguous:
+        raise ValueError('Buffer dtype mismatch / not C-contiguous float32 2-D (Cython typed buffer check)')
     return numpy.frombuffer(mv, dtype=numpy.float32).ctypes.data
+
+
 def parse_sentence(tag, dep, length, roots, bcb, ucb, finalizer, scaffold, fargs, cache, cfg):
     err = []
+
     def sc(cb, x, y, res):
-        try: return scaffold(bcb if y != UINT_MAX else ucb, x, y, _Vec(res))
-        except BaseException as e: err.append(e); return -1
+        try:
+            return scaffold(bcb if y != UINT_MAX else ucb, x, y, _Vec(res))
+        except BaseException as e:
+            err.append(e); return -1
+
     def fin(item, tok, c, a):
-        try: return _u32(finalizer(_Item(item), tok, cache_type(c), fargs))
-        except BaseException as e: err.append(e); return 0
+        try:
+            return _u32(finalizer(_Item(item), tok, cache_type(c), fargs))
+        except BaseException as e:
+            err.append(e); return 0
     rs = (C.c_uint * len(roots))(*sorted(roots))
     st = _lib.run_parse(_buf(tag), _buf(dep), _u32(length), rs, len(roots), None, None, FINAL(fin), SCAF(sc), None, cache.p,
                         _u32(cfg.num_tags), cfg.unary_penalty, cfg.beta, int(bool(cfg.use_beta)), _u32(cfg.pruning_size), _u32(cfg.nbest), _u32(cfg.max_step))
-    if err: raise err[0]
-    if st < 0: raise RuntimeError('some error has occurred in the callback Python function.')
+    if err:
+        raise err[0]
+    if st < 0:
+        raise RuntimeError('some error has occurred in the callback Python function.')
     return st
+
+
+# ---- direct use by the A* checks ---------------------------------------------------------------------
+def _node(it):
+    """plain structure of an item and everything below it"""
+    return {'fin': it.fin, 'cat': it.cat, 'in': it.in_score, 'out': it.out_score, 'start': it.start_of_span, 'len': it.span_length,
+            'head': it.head_id, 'rule': it.rule_id,
+            'left': _node(it.left) if it.left is not None else None, 'right': _node(it.right) if it.right is not None else None}
+
+
+def read_trace():
+    n = _lib.trace_len()
+    out = []
+    fin = C.c_int(); cat = C.c_uint(); l = C.c_ulonglong(); r = C.c_ulonglong(); i_ = C.c_float(); o_ = C.c_float()
+    s = C.c_uint(); ln = C.c_uint(); h = C.c_uint(); ru = C.c_uint(); st = C.c_ulonglong()
+    for k in range(n):
+        _lib.trace_get(k, fin, cat, l, r, i_, o_, s, ln, h, ru, st)
+        out.append({'fin': bool(fin.value), 'cat': cat.value, 'left': l.value, 'right': r.value, 'in': i_.value, 'out': o_.value,
+                    'start': s.value, 'len': ln.value, 'head': h.value, 'rule': ru.value, 'stored': st.value})
+    return out
+
+
+def search(tag, dep, roots, binary, unary, *, unary_penalty=0.0, beta=1e-5, use_beta=False, pruning_size=50, nbest=1, max_step=10000000, trace=True):
+    """run parse_sentence of the real header.  binary(x, y) / unary(x) -> list of (cat_id, head_is_left, op_string, op_symbol);
+    returns {'status', 'goals': [node...] in finalizer order, 'trace': [...], 'calls': {(x, y): results}}"""
+    tag = numpy.ascontiguousarray(tag, dtype=numpy.float32); dep = numpy.ascontiguousarray(dep, dtype=numpy.float32)
+    n, ntags = tag.shape
+    assert dep.shape == (n, n + 1)
+    calls = {}
+    goals = []
+
+    def scaffold(cb, x, y, vec):
+        rs = list(binary(x, y)) if y != UINT_MAX else list(unary(x))
+        calls[(x, y)] = rs
+        for k, (cid, hl, a, b) in enumerate(rs):
+            c = combinator_result(); c.cat_id = cid; c.rule_id = k; c.head_is_left = hl; c.op_string = a.encode('utf-8'); c.op_symbol = b.encode('utf-8')
+            vec.push_back(c)
+        return 0
+
+    def finalizer(item, tok, cache, args):
+        goals.append(_node(item)); return 0
+    cfg = config(); cfg.num_tags = ntags; cfg.unary_penalty = unary_penalty; cfg.beta = beta; cfg.use_beta = use_beta
+    cfg.pruning_size = pruning_size; cfg.nbest = nbest; cfg.max_step = max_step
+    cache = cache_type()
+    _lib.trace_enable(1 if trace else 0)
+    try:
+        st = parse_sentence(tag, dep, n, set(roots), 'b', 'u', finalizer, scaffold, None, cache, cfg)
+        tr = read_trace() if trace else []
+    finally:
+        _lib.trace_enable(0)
+    return {'status': st, 'goals': goals, 'trace': tr, 'calls': calls}
